@@ -52,6 +52,8 @@ def shards(tier, seed):
     for L in ((4,) if tier == "quick" else (3, 4, 5)):
         for mi in range(len(MOTIF_SETS)):
             out.append(dict(name="scanN/L%d/m%d" % (L, mi), kind="scan", L=L, mi=mi, N=True, numba_threads=2, weight=5 ** L))
+    for L in ((130, 300, 33000) if tier == "quick" else (130, 300, 33000, 70000)):
+        out.append(dict(name="planted/L%d" % L, kind="planted", L=L, numba_threads=4, weight=L))
     out.append(dict(name="fasta", kind="fasta", numba_threads=2, weight=500))
     out.append(dict(name="threads", kind="threads", numba_threads=16, weight=3000))
     out.append(dict(name="binedge", kind="binedge", numba_threads=1, weight=500))
@@ -268,6 +270,101 @@ def run_scan(rec, sh, tier, seed):
     rec.sample(dict(kind="scan", L=L, N=sh["N"], motifs={n: p.tolist() for n, p in motifs}, sequences=len(codes)))
 
 
+def ref_hits_long(codes_list, motifs, eps, bin_size, threshold, rc):
+    """numpy-vectorised reference for long sequences (window scores by shifted gathers)."""
+    hits, undecided = {}, set()
+    for mi, (name, pwm) in enumerate(motifs):
+        for strand, pw in (("+", pwm),) + ((("-", pwm[::-1, ::-1]),) if rc else ()):
+            log_pwm, thr, tab, lo = ref_motif(pw, eps, bin_size, threshold)
+            w = pw.shape[1]
+            pad = numpy.vstack([log_pwm, numpy.zeros((1, w))])
+            for si, codes in enumerate(codes_list):
+                n = len(codes) - w + 1
+                if n <= 0:
+                    continue
+                sc = numpy.zeros(n)
+                for j in range(w):
+                    sc = sc + pad[codes[j:j + n], j]
+                near = numpy.abs(sc - thr) < 1e-9
+                for st in numpy.nonzero(near)[0]:
+                    undecided.add((mi, si, int(st), int(st) + w, strand))
+                for st in numpy.nonzero((sc > thr) & ~near)[0]:
+                    b = int(sc[st] / bin_size)
+                    hits[(mi, si, int(st), int(st) + w, strand)] = (float(sc[st]), 2.0 ** tab.get(b, float("-inf") if b > lo else 0.0))
+    return hits, undecided
+
+
+def run_planted(rec, sh, tier, seed):
+    """1-8 motifs of width 2-20, consensus planted at every boundary offset (0, 1, dtype-width boundaries, L-w-1, L-w) on both strands,
+    thresholds down to 1e-6, several sequences, tensor and FASTA input."""
+    from tangermeme.tools.fimo import fimo
+    L = sh["L"]
+    rs = numpy.random.RandomState(99 + seed)
+    widths = [2, 5, 8, 11, 14, 17, 20, 20]
+    motifs = []
+    for k, w in enumerate(widths):
+        cons = rs.randint(0, 4, w)
+        pw = numpy.full((4, w), 0.05)
+        pw[cons, numpy.arange(w)] = 0.85
+        if k % 2:
+            j = w // 2
+            pw[:, j] = 0.25                                 # an uninformative column
+        motifs.append(("w%d_%d" % (w, k), pw, cons))
+    nseq = 3 if L <= 1000 else 1
+    seqs = []
+    for si in range(nseq):
+        codes = rs.randint(0, 4, L)
+        if L <= 1000:
+            codes[rs.randint(0, L, 3)] = -1                 # a few unknown characters
+        offs_all = [0, 1, 126, 127, 128, 254, 255, 256, 32766, 32767, 32768, 65534, 65535, 65536]
+        for k, (name, pw, cons) in enumerate(motifs):
+            w = len(cons)
+            for oi, o in enumerate(offs_all + [L - w - 1, L - w]):
+                if o < 0 or o + w > L or (oi + k + si) % 3:
+                    continue
+                codes[o:o + w] = cons if (oi + si) % 2 == 0 else (3 - cons[::-1])       # forward or reverse-complement instance
+        seqs.append(codes)
+    X = ohe(numpy.stack(seqs), 4)
+    d = env.scratch_dir("c12p")
+    try:
+        fa = os.path.join(d, "p.fa")
+        with open(fa, "w") as fh:
+            for si, c in enumerate(seqs):
+                fh.write(">seq%d\n%s\n" % (si, "".join("ACGT"[v] if v >= 0 else "N" for v in c)))
+        names = ["seq%d" % i for i in range(nseq)]
+        n_hits = n_last = 0
+        for nm in ((8, 3) if tier == "quick" else (8, 5, 3, 1)):
+            sub = motifs[:nm]
+            md = {n: torch.from_numpy(p) for n, p, _ in sub}
+            mlist = [(n, p) for n, p, _ in sub]
+            mnames = [n for n, _, _ in sub]
+            for thr in (1e-2, 1e-4, 1e-6):
+                for rc in (True, False):
+                    case = dict(fn="fimo", L=L, n_sequences=nseq, n_motifs=nm, widths=widths[:nm], threshold=thr, bin_size=0.1, reverse_complement=rc,
+                                input="tensor (planted motifs)", seed=seed)
+                    ref, und = ref_hits_long(seqs, mlist, 1e-4, 0.1, thr, rc)
+                    st, dfs = call(fimo, md, X, threshold=thr, reverse_complement=rc)
+                    rec.case(nseq * L * nm * (2 if rc else 1), len(ref))
+                    if st != "ok":
+                        rec.violation("fimo:raises", case, observed=dfs)
+                        continue
+                    got, dup = df_to_hits(dfs)
+                    if not compare(rec, case, got, dup, ref, und, mnames, thr):
+                        continue
+                    n_hits += len(ref)
+                    n_last += sum(1 for k in ref if k[3] == L)
+                    st, dff = call(fimo, md, fa, threshold=thr, reverse_complement=rc)
+                    gf, dupf = df_to_hits(dff, names) if st == "ok" else (None, 0)
+                    if gf is None or set(gf) != set(got):
+                        rec.violation("fimo:fasta_vs_tensor_differ", dict(case, input="fasta"))
+                    rec.observe(L, nm, thr, rc, len(ref))
+        rec.count("reference_hits", n_hits)
+        rec.count("hits_at_last_window", n_last)
+        rec.sample(dict(kind="planted", L=L, widths=widths, thresholds=[1e-2, 1e-4, 1e-6], planted_offsets="0,1,126..128,254..256,32766..32768,65534..65536,L-w-1,L-w"))
+    finally:
+        shutil.rmtree(d, ignore_errors=True)
+
+
 FASTA_SETS = [
     [("s1", "ACGTACGTTTGCA"), ("s2", "ac"), ("chrZ", "ACGNNACGacgTTA"), ("x", "ACG")],
     [("a", "TTTACG"), ("b", "A"), ("c", "CGTACGTAAACGTnnnACG"), ("d", "GGGGCGT")],
@@ -407,6 +504,8 @@ def run_shard(sh, tier, seed):
     k = sh["kind"]
     if k == "scan":
         run_scan(rec, sh, tier, seed)
+    elif k == "planted":
+        run_planted(rec, sh, tier, seed)
     elif k == "fasta":
         run_fasta(rec, tier, seed)
     elif k == "threads":
@@ -421,6 +520,8 @@ def replay(v):
     rec = Recorder(PID, "replay")
     if c.get("probe"):
         run_binedge(rec, "quick", 0)
+    elif "planted" in c.get("input", ""):
+        run_planted(rec, dict(L=c["L"]), "quick", c.get("seed", 0))
     elif c.get("input", "").startswith("fasta"):
         run_fasta(rec, "quick", 0)
     elif "threads" in c:
